@@ -21,10 +21,11 @@ LABELS = ('A', 'B', 'C', 'D')
 
 
 class World(object):
-    def __init__(self, prog, qual, symmetric=True):
+    def __init__(self, prog, qual, symmetric=True, labels=LABELS):
         self.ip = Interp(prog)
         self.cls = prog.cls(qual)
-        self.types = Seq([Const(l) for l in LABELS], 'list')
+        self.labels = labels
+        self.types = Seq([Const(l) for l in labels], 'list')
         kw = {}
         if qual == PT and symmetric is not True:
             kw['symmetric'] = Const(symmetric)
@@ -387,6 +388,25 @@ def rule_setunset_check(ctx, rule='R14.u'):
             r = outcome(w)
             if r != 'ValueError':
                 bad.append('check() on an empty table: %s' % (r or 'no exception'))
+            # labels are any hashable: the same with integer site types (a message built with str.join over the labels
+            # raises TypeError instead of the promised ValueError)
+            ints = (11, 22, 33)
+            ikeys = [(a, b) for i, a in enumerate(ints) for b in ints[i:]] if pair else [(a,) for a in ints]
+            for miss in ikeys[:2] + ikeys[-1:]:
+                w = World(ctx.prog, qual, labels=ints)
+                for k in ikeys:
+                    if k != miss:
+                        w.call('__setitem__', w.key(*k), w.payload('v'))
+                r = outcome(w)
+                if r != 'ValueError':
+                    bad.append('integer site types %s: check() %s when %s is unset (ValueError required)'
+                               % (list(ints), 'passes' if r is None else 'raises ' + r, miss))
+            w = World(ctx.prog, qual, labels=ints)
+            for k in ikeys:
+                w.call('__setitem__', w.key(*k), w.payload('v'))
+            r = outcome(w)
+            if r is not None:
+                bad.append('integer site types: check() raises %s on a fully specified table' % r)
             # histories with re-assignments and overwrites: one entry assigned as often as the table has entries, the
             # others never (a bookkeeping counter instead of looking at the values is fooled by this)
             w = World(ctx.prog, qual)
